@@ -422,6 +422,17 @@ fn seal(cipher: &dyn Cipher, aad: &[u8], pt: &[u8]) -> (Vec<u8>, Vec<u8>) {
     )
 }
 
+/// AES-SIV (CMAC-256 for a 32-byte key, CMAC-512 for a 64-byte key) called directly with a CHOSEN nonce of any
+/// length: what a key holder other than this implementation may do (RFC 8915 only sets a minimum nonce length)
+fn seal_with_nonce(key: &[u8], nonce: &[u8], aad: &[u8], pt: &[u8]) -> Vec<u8> {
+    use aes_siv::{siv::Aes128Siv, siv::Aes256Siv, Key, KeyInit};
+    if key.len() == 32 {
+        Aes128Siv::new(Key::<Aes128Siv>::from_slice(key)).encrypt([aad, nonce], pt).expect("siv")
+    } else {
+        Aes256Siv::new(Key::<Aes256Siv>::from_slice(key)).encrypt([aad, nonce], pt).expect("siv")
+    }
+}
+
 fn oracle_line(key: &[u8], nonce: &[u8], aad: &[u8], ct: &[u8], pt: &[u8]) -> String {
     format!("oracle key={} nonce={} aad={} ct={} pt={}", hex(key), hex(nonce), hex(aad), hex(ct), hex(pt))
 }
@@ -922,10 +933,13 @@ fn auth_view(obs: &str) -> AuthView {
 
 /// C25 oracle, evaluated on the implementation's own output.  `o` = offset of the authenticator field in the
 /// base packet, whose layout is type(2) len(2) nonce_len(2) ct_len(2) nonce(16) ct(ct_len) padding.
-fn c25_oracle(run: &mut Run, ctx_kind: &str, o: usize, ct_len: usize, orig: &AuthView, pos: usize, obs: &str) {
+fn c25_oracle(run: &mut Run, ctx_kind: &str, o: usize, ct_len: usize, nl: usize, orig: &AuthView, pos: usize, obs: &str) {
     let got = auth_view(obs);
     let nothing = got.0 == "-" && got.1 == "-" && got.2 == "none";
-    let protected = pos < o || (pos >= o + 8 && pos < o + 24 + ct_len);
+    // field header 4, inner length words 4, nonce `nl` (the WHOLE nonce is authenticated), zero padding to a word
+    // boundary (not authenticated), ciphertext
+    let ct_start = o + 8 + nm4(nl);
+    let protected = pos < o || (pos >= o + 8 && pos < o + 8 + nl) || (pos >= ct_start && pos < ct_start + ct_len);
     let region = if pos < 48 {
         "header"
     } else if pos < o {
@@ -934,9 +948,13 @@ fn c25_oracle(run: &mut Run, ctx_kind: &str, o: usize, ct_len: usize, orig: &Aut
         "auth-type-len"
     } else if pos < o + 8 {
         "auth-inner-len"
-    } else if pos < o + 24 {
+    } else if pos < o + 8 + 16.min(nl) {
         "nonce"
-    } else if pos < o + 24 + ct_len {
+    } else if pos < o + 8 + nl {
+        "nonce-beyond-16"
+    } else if pos < ct_start {
+        "nonce-padding"
+    } else if pos < ct_start + ct_len {
         "ciphertext"
     } else {
         "after"
@@ -968,6 +986,15 @@ fn c25_oracle(run: &mut Run, ctx_kind: &str, o: usize, ct_len: usize, orig: &Aut
 
 /// a valid NTS packet: (setup ops, bytes, authenticator offset, ciphertext length)
 fn build_nts(rng: &mut Rng) -> (Vec<String>, Vec<u8>, usize, usize, &'static str) {
+    let (a, b, c, d, e, _) = build_nts_nl(rng, false);
+    (a, b, c, d, e)
+}
+
+/// as `build_nts`; with `long_nonces` the authenticator's nonce has 16, 17, 20, 24 or 32 octets (fixed shares).  A
+/// nonce longer than 16 octets comes from a key holder that calls the AEAD itself, in one of two ways: with the full
+/// wire nonce (honest long-nonce sender: the packet is authentic) or with the first 16 octets only (the wire nonce
+/// is NOT what was sealed: an ideal AEAD, and the unmodified decoder, reject it).  Last component: nonce length.
+fn build_nts_nl(rng: &mut Rng, long_nonces: bool) -> (Vec<String>, Vec<u8>, usize, usize, &'static str, usize) {
     let ver: u8 = if rng.chance(1, 2) { 4 } else { 5 };
     let klen = if rng.chance(1, 2) { 32 } else { 64 };
     let c2s = rand_key(rng, klen);
@@ -1025,8 +1052,19 @@ fn build_nts(rng: &mut Rng) -> (Vec<String>, Vec<u8>, usize, usize, &'static str
         pt.extend(raw_field(0x4321, 4 + 8, &rng.bytes(8), true));
     }
     let cipher = cipher_from_key(&c2s).unwrap();
-    let (nonce, ct) = seal(cipher.as_ref(), &bytes, &pt);
-    setup.push(oracle_line(&c2s, &nonce, &bytes, &ct, &pt));
+    let nl = if long_nonces { *rng.pick(&[16usize, 16, 17, 17, 20, 24, 32, 32]) } else { 16 };
+    let (nonce, ct) = if nl == 16 && rng.chance(1, 2) {
+        let (nonce, ct) = seal(cipher.as_ref(), &bytes, &pt);
+        setup.push(oracle_line(&c2s, &nonce, &bytes, &ct, &pt));
+        (nonce, ct)
+    } else {
+        let nonce = rng.bytes(nl);
+        let sealed_nonce_len = if nl > 16 && rng.chance(1, 2) { 16 } else { nl };
+        let ct = seal_with_nonce(&c2s, &nonce[..sealed_nonce_len], &bytes, &pt);
+        // the ideal AEAD knows the tuple that was really sealed; the decoder looks the WIRE nonce up
+        setup.push(oracle_line(&c2s, &nonce[..sealed_nonce_len], &bytes, &ct, &pt));
+        (nonce, ct)
+    };
     let o = bytes.len();
     bytes.extend(enc_field(&nonce, &ct));
     // sometimes something unauthenticated follows
@@ -1035,15 +1073,62 @@ fn build_nts(rng: &mut Rng) -> (Vec<String>, Vec<u8>, usize, usize, &'static str
         1 if ver == 4 => bytes.extend(rng.bytes(20)),
         _ => {}
     }
-    (setup, bytes, o, ct.len(), ctx_kind)
+    (setup, bytes, o, ct.len(), ctx_kind, nonce.len())
+}
+
+/// C04 (implementation-only oracle, no model involved): what the leap vote sees of an NTPv5 packet.  With the
+/// synchronized flag clear the parsed leap indicator is Unsynchronized; with the flag set and leap bits 3 it is
+/// Unknown (such a source is ignored by the vote); otherwise it is the wire value.  `obs` = dump of the parsed packet
+/// (`v5:l<index>,…`, index = NoWarning 0, Leap61 1, Leap59 2, Unknown 3, Unsynchronized 4).
+fn c04_v5_leap_mapping(run: &mut Run, data: &[u8], obs: &str) {
+    if data.len() < 48 || (data[0] >> 3) & 7 != 5 {
+        return;
+    }
+    let Some(pos) = obs.find("v5:l") else { return };
+    let got: String = obs[pos + 4..].chars().take_while(|c| c.is_ascii_digit()).collect();
+    let bits = data[0] >> 6;
+    let sync = data[15] & 1 == 1;
+    let want = if !sync { 4 } else if bits == 3 { 3 } else { bits };
+    run.hit(&format!("c04/v5leap/bits{}/sync{}/l{}", bits, sync as u8, got));
+    run.nontrivial(&format!("c04|bits{}|sync{}|mode{}|{}", bits, sync as u8, data[0] & 7, (data.len() - 48) / 16));
+    if got != want.to_string() {
+        run.oracle_fail(
+            "c04_v5_leap_mapping",
+            &format!("bits={} sync={} got=l{} want=l{}", bits, sync as u8, got, want),
+            &format!(
+                "NTPv5 packet with leap bits {} and synchronized flag {} is parsed with leap indicator index {} (expected {}; 0 NoWarning, 1 Leap61, 2 Leap59, 3 Unknown, 4 Unsynchronized): the leap vote would count this source wrongly",
+                bits, sync as u8, got, want
+            ),
+        );
+    }
+}
+
+/// stream `c04_v5_leap`: key-less NTPv5 packets, all 4 leap-bit values x both values of the synchronized flag in
+/// fixed shares (index mod 8), request and response, otherwise random valid headers, draft identification, sometimes
+/// further plain fields
+fn gen_c04_case(rng: &mut Rng, idx: u64) -> Vec<String> {
+    let mut b = rng.bytes(48);
+    let bits = (idx % 4) as u8;
+    let sync = ((idx / 4) % 2) as u8;
+    let mode = 3 + ((idx / 8) % 2) as u8;
+    b[0] = (bits << 6) | (5 << 3) | mode;
+    b[12] = rng.below(4) as u8;
+    b[14] = 0;
+    b[15] = (rng.below(4) as u8) << 1 | sync;
+    b.extend(raw_field(T_DRAFT, 4 + v5::DRAFT_VERSION.len(), v5::DRAFT_VERSION.as_bytes(), true));
+    if rng.chance(1, 3) {
+        let l = rng.usize(0, 40);
+        b.extend(raw_field(*rng.pick(&[T_UID, T_COOKIE, 0x1234u16, T_RRESP]), 4 + l, &rng.bytes(l), true));
+    }
+    vec![draftver_op(), "ctx none".to_string(), format!("parse {}", hex(&b))]
 }
 
 /// every single-bit flip and three byte replacements (0x00, 0xff, +1) at every position of one valid packet
 fn gen_c25_case(rng: &mut Rng, _idx: u64) -> Vec<String> {
-    let (mut ops, bytes, o, ct_len, _) = build_nts(rng);
+    let (mut ops, bytes, o, ct_len, _, nl) = build_nts_nl(rng, true);
     ops.insert(0, draftver_op());
     ops.push(format!("base {}", hex(&bytes)));
-    ops.push(format!("c25 layout o={} ct={}", o, ct_len));
+    ops.push(format!("c25 layout o={} ct={} nl={}", o, ct_len, nl));
     ops.push(format!("parse {}", hex(&bytes)));
     for i in 0..bytes.len() {
         for bit in 0..8 {
@@ -1132,7 +1217,7 @@ fn exec_case(ops: &[String], run: &mut Run) {
     let mut ctx = Ctx::None;
     let mut ctx_kind = "none";
     let mut base: Vec<u8> = vec![];
-    let mut base_auth: Option<(usize, usize, AuthView)> = None;
+    let mut base_auth: Option<(usize, usize, usize, AuthView)> = None;
     for op in ops {
         run.begin_op(op);
         let w: Vec<&str> = op.split_whitespace().collect();
@@ -1163,6 +1248,7 @@ fn exec_case(ops: &[String], run: &mut Run) {
                     run.oracle_fail("panic", &format!("ctx={} len={}", ctx_kind, data.len()), &format!("NtpPacket::deserialize panicked: {}", common::last_panic()));
                 }
                 if class == "ok" || class == "decrypterr" {
+                    c04_v5_leap_mapping(run, &data, &obs);
                     // signature: context, outcome, and the shape of the dump (field kinds, no payloads)
                     let shape: String = obs
                         .split(|c| c == ' ' || c == ';' || c == '[')
@@ -1186,8 +1272,9 @@ fn exec_case(ops: &[String], run: &mut Run) {
                 // harness-only annotation (the model driver answers `ok` to any `c25` line)
                 let o: usize = common::kv(rest, "o").unwrap().parse().unwrap();
                 let ct: usize = common::kv(rest, "ct").unwrap().parse().unwrap();
+                let nl: usize = common::kv(rest, "nl").map(|v| v.parse().unwrap()).unwrap_or(16);
                 let (obs, _) = parse_obs(&base, &ctx);
-                base_auth = Some((o, ct, auth_view(&obs)));
+                base_auth = Some((o, ct, nl, auth_view(&obs)));
                 run.end_op("ok");
             }
             ["flip", i, m] | ["setb", i, m] => {
@@ -1207,9 +1294,9 @@ fn exec_case(ops: &[String], run: &mut Run) {
                 if v.0 != "-" || v.1 != "-" {
                     run.nontrivial(&format!("{}|{}|{}|{}|{}|{}", ctx_kind, class, v.0.split(';').count(), v.1.split(';').count(), v.2 == "none", data.len() / 64));
                 }
-                if let Some((o, ct_len, orig)) = &base_auth {
+                if let Some((o, ct_len, nl, orig)) = &base_auth {
                     if data != base {
-                        c25_oracle(run, ctx_kind, *o, *ct_len, orig, i, &obs);
+                        c25_oracle(run, ctx_kind, *o, *ct_len, *nl, orig, i, &obs);
                     }
                 }
                 run.end_op(&obs);
@@ -1593,9 +1680,15 @@ fn entry() {
             corpus_c24(),
             gen_c24_case,
         ),
+        "c04_v5_leap" => drive_with_corpus(
+            "c04_v5_leap",
+            "key-less NTPv5 packets with all 4 leap-bit values x both values of the synchronized flag x request/response in fixed shares (index mod 16), random valid remaining header, draft identification, sometimes one more plain field; decoded by the real decoder and the model; implementation-only oracle c04_v5_leap_mapping: synchronized flag clear => Unsynchronized, flag set and leap bits 3 => Unknown (ignored by the leap vote), otherwise the wire value; non-trivial = accepted; distinct by leap bits + flag + mode + field shape",
+            vec![],
+            gen_c04_case,
+        ),
         "c25_tamper" => drive_with_corpus(
             "c25_tamper",
-            "valid NTS packets (v4/v5, AES-SIV-CMAC-256/512, client side under the session key and server side under a 1-3 key key set with a real cookie, 0-8 placeholders or 0-8 fresh cookies inside the ciphertext, sometimes an unauthenticated field or MAC after the authenticator); for each, the intact packet and EVERY single-bit flip plus three byte replacements at EVERY position are decoded; one case = one packet with all its modifications; non-trivial = a decode that still reports authenticated content; distinct by context+outcome+shape",
+            "valid NTS packets (v4/v5, AES-SIV-CMAC-256/512, authenticator nonces of 16, 17, 20, 24 and 32 octets - the longer ones sealed by a key holder calling AES-SIV directly, half of them with the full wire nonce (authentic) and half with its first 16 octets only (not authentic: the wire nonce was not sealed) -, client side under the session key and server side under a 1-3 key key set with a real cookie, 0-8 placeholders or 0-8 fresh cookies inside the ciphertext, sometimes an unauthenticated field or MAC after the authenticator); for each, the intact packet and EVERY single-bit flip plus three byte replacements at EVERY position are decoded; one case = one packet with all its modifications; non-trivial = a decode that still reports authenticated content; distinct by context+outcome+shape",
             vec![],
             gen_c25_case,
         ),
